@@ -12,6 +12,10 @@
 (* Quads 5 Cylinder 6 Circle 7 Cone 8 Hemisphere 9 Quad 10 extrude.Polygon *)
 (* 11 extrude.Circle 12 extrude.Shape 13 extrude.ClosedShape 14 extrude.   *)
 (* Line 15 repeat.Mesh(Line|Circle) 16 BowyerWatson 17 marching sphere     *)
+(* 18 ConstrainedBowyerWatson (outline b) 19 extrude.CircleAlongSpline     *)
+(* 20 marching Field.March 21 UnitCube; flag of 10: 1 texture coordinates, *)
+(* 2 neighbouring points share one, 3 only some points carry one; flag of  *)
+(* 11/19: bit 0 closed path, bit 1 one radius per point                    *)
 (* p = <<size*2, n1, n2, flag>>                                            *)
 (***************************************************************************)
 EXTENDS Integers, Sequences, FiniteSets, TLC, Json
@@ -26,7 +30,11 @@ Cases ==
     \cup {[gen |-> 5, p |-> <<r, a, b, f>>] : r \in {2}, a \in N1, b \in 0..3, f \in {0, 1}}
     \cup {[gen |-> gn, p |-> <<2, a, 0, f>>] : gn \in {6, 7, 9}, a \in N1, f \in {0, 1}}
     \cup {[gen |-> 8, p |-> <<2, a, b, f>>] : a \in N2, b \in N1, f \in {0, 1}}
-    \cup {[gen |-> gn, p |-> <<2, a, b, f>>] : gn \in {10, 11}, a \in N1, b \in N2, f \in {0, 1}}
+    \cup {[gen |-> gn, p |-> <<2, a, b, f>>] : gn \in {10, 11}, a \in N1, b \in N2, f \in {0, 1, 2, 3}}
+    \cup {[gen |-> 18, p |-> <<2, a, b, 0>>] : a \in 0..8, b \in 0..3}
+    \cup {[gen |-> 19, p |-> <<2, a, b, f>>] : a \in N2, b \in 0..4, f \in {0, 1, 2, 3}}
+    \cup {[gen |-> 20, p |-> <<r, a, b, f>>] : r \in {1, 3}, a \in {1, 2, 3}, b \in {0, 1}, f \in {0, 1}}
+    \cup {[gen |-> 21, p |-> <<2, 0, 0, 0>>]}
     \cup {[gen |-> gn, p |-> <<2, a, b, 0>>] : gn \in {12, 13}, a \in 0..5, b \in N2}
     \cup {[gen |-> 14, p |-> <<2, a, 0, 0>>] : a \in N1}
     \cup {[gen |-> 15, p |-> <<2, a, b, f>>] : a \in N2, b \in {0, 1}, f \in {0, 1}}
